@@ -1018,6 +1018,8 @@ func main() {
 		dk = append(dk, fmt.Sprintf("%s=%.1fs", k, v.Seconds()))
 	}
 	sort.Strings(dk)
-	fmt.Fprintln(os.Stderr, "c03 cpu per class:", strings.Join(dk, " "))
+	if os.Getenv("C03_TIMING") != "" {
+		fmt.Fprintln(os.Stderr, "c03 wall per class:", strings.Join(dk, " "))
+	}
 	res.Write(a.Out)
 }
